@@ -931,6 +931,52 @@ func (c *Ctx) nexusKeywords() {
 		}
 		return true
 	})
+	// ... or the keys of a package-level table (map[string]Token{...}) the lexer looks words up in
+	{
+		linfo := lex.Pkg.TypesInfo
+		ast.Inspect(lex.Decl.Body, func(n ast.Node) bool {
+			id, ok := n.(*ast.Ident)
+			if !ok {
+				return true
+			}
+			v, ok := linfo.Uses[id].(*types.Var)
+			if !ok || v.Parent() != lex.Pkg.Types.Scope() {
+				return true
+			}
+			if _, isMap := v.Type().Underlying().(*types.Map); !isMap {
+				return true
+			}
+			for _, f := range lex.Pkg.Syntax {
+				for _, d := range f.Decls {
+					gd, ok := d.(*ast.GenDecl)
+					if !ok {
+						continue
+					}
+					for _, sp := range gd.Specs {
+						vs, ok := sp.(*ast.ValueSpec)
+						if !ok {
+							continue
+						}
+						for i, nm := range vs.Names {
+							if linfo.Defs[nm] != v || i >= len(vs.Values) {
+								continue
+							}
+							if lit, ok := unparen(vs.Values[i]).(*ast.CompositeLit); ok {
+								for _, el := range lit.Elts {
+									if kv, ok := el.(*ast.KeyValueExpr); ok {
+										if tv, ok := linfo.Types[kv.Key]; ok && tv.Value != nil && tv.Value.Kind() == constant.String {
+											kw[constant.StringVal(tv.Value)] = true
+										}
+									}
+								}
+							}
+						}
+					}
+				}
+			}
+			return true
+		})
+	}
 	if len(kw) < 10 {
 		c.Undecided("TABLE", "io/nexus/keywords", lex.Decl.Pos(), fmt.Sprintf("expected >=10 keyword cases in the Nexus lexer, found %d", len(kw)))
 		return
@@ -938,7 +984,26 @@ func (c *Ctx) nexusKeywords() {
 	for _, fi := range []*FuncInfo{w1, w2} {
 		info := fi.Pkg.TypesInfo
 		words := map[string]token.Pos{}
-		ast.Inspect(fi.Decl.Body, func(n ast.Node) bool {
+		// the writer and the unexported helpers of its package it calls
+		units := []*FuncInfo{fi}
+		seenU := map[*types.Func]bool{fi.Obj: true}
+		for i := 0; i < len(units) && len(units) < 12; i++ {
+			for _, call := range callsIn(units[i].Decl.Body, true) {
+				g := calleeOf(units[i].Pkg.TypesInfo, call)
+				if g == nil || seenU[g] || g.Exported() || g.Pkg() != fi.Obj.Pkg() {
+					continue
+				}
+				if gi := c.FuncOfObj(g); gi != nil && gi.Decl.Body != nil {
+					seenU[g] = true
+					units = append(units, gi)
+				}
+			}
+		}
+		body := &ast.BlockStmt{}
+		for _, u := range units {
+			body.List = append(body.List, u.Decl.Body)
+		}
+		ast.Inspect(body, func(n ast.Node) bool {
 			if lit, ok := n.(*ast.BasicLit); ok && lit.Kind == token.STRING {
 				if tv := info.Types[lit]; tv.Value != nil {
 					for _, w := range nexusWord.FindAllString(constant.StringVal(tv.Value), -1) {
